@@ -37,7 +37,7 @@ def count_phase(ctx, rc):
     if not srt:
         raise vlib.ToolError("OtlpCount printed no scripts")
     # the counter as a separate load and store loses updates: the specification must say so on every run
-    bad = ctx.tlc("MCOtlpCount", "OtlpCount_split.cfg", workers=2, timeout=300, xmx="2g", count=False,
+    bad = ctx.tlc("MCOtlpCount", "OtlpCount_split.cfg", workers=2, timeout=900, xmx="2g", count=False,
                   expect_violation=True, label="OtlpCount_split")
     if bad.violated != "CountExact":
         raise vlib.ToolError("OtlpCount_split.cfg: expected CountExact to be violated by the load/store counter, got %r" % bad.violated)
